@@ -90,6 +90,19 @@ class WebSocketCodec(BaseComponent):
             return msgs
         data = self._buffer + data
         while data:
+            # the whole header (incl. extended length and masking key)
+            # must have arrived before it can be interpreted
+            header_length = 2
+            if len(data) >= 2:
+                if data[1] & 0x7F == 126:
+                    header_length += 2
+                elif data[1] & 0x7F == 127:
+                    header_length += 8
+                if data[1] & 0x80:
+                    header_length += 4
+            if len(data) < header_length:
+                self._buffer = data
+                break
             # extract final flag, opcode and masking
             final = bool(data[0] & 0x80 != 0)
             opcode = data[0] & 0xF
